@@ -3,6 +3,7 @@ package main
 // C12 — parsing and matching never crash; comments and rejected lines are inert.
 
 import (
+	"os"
 	"fmt"
 	"go/token"
 	"go/types"
@@ -546,6 +547,9 @@ func checkNil(c *Ctx, scope []*ssa.Function) {
 			}
 			rc := s.RCAt(in)
 			nonNil := u.bdd.Not(u.ToBool(u.Eq(be, u.mk("nil", "", nil))))
+			if os.Getenv("UFCHECK_DEBUG_NIL") != "" && strings.Contains(key, os.Getenv("UFCHECK_DEBUG_NIL")) {
+				fmt.Fprintf(os.Stderr, "NILDBG %s %s value=%s ok=%v\n", c.P.Pos(in.Pos()), key, clip(u.Show(be), 120), u.bdd.Implies(rc, nonNil))
+			}
 			if u.bdd.Implies(rc, nonNil) {
 				c.OK("C12.R2", key, in.Pos(), "dominated by a nil test on the same value")
 				return
